@@ -23,7 +23,6 @@ using namespace rkcommon;
 using namespace rkcommon::math;
 using c05::Counters;
 using c05::num;
-using c05::viol;
 
 template <int N>
 struct Space
@@ -162,9 +161,9 @@ static void check_ray(const char *tname, const double *o, const double *d, const
     return std::string("ray ") + tname + " o=" + csv<N>(o) + " d=" + csv<N>(d) + " box=" + csv<N>(lo) + ":" + csv<N>(hi) + " t=" + (tr.dflt ? std::string("default") : num(tr.a) + "," + num(tr.b));
   };
   auto cls = [&]() {
-    return std::string(parallel ? "axis-parallel direction" : "general direction") + ", " + (where == 0 ? "origin strictly inside" : where == 1 ? "origin on the boundary" : "origin outside") + ", " +
-        (flat ? "flat box" : "box with interior") + ", " + (tr.dflt ? "default tRange" : "explicit tRange");
+    return std::string(parallel ? "axis-parallel direction" : "general direction") + ", " + (where == 0 ? "origin strictly inside" : where == 1 ? "origin on the boundary" : "origin outside");
   };
+  const int kc = parallel + 2 * where;
   auto ivs = [](double a, double b) { return a <= b ? "[" + num(a) + "," + num(b) + "]" : std::string("empty (") + num(a) + " > " + num(b) + ")"; };
   const std::string fn = std::string("intersectRayBox<") + tname + ">";
   RP("org " + vs<N>(o) + " dir " + vs<N>(d) + " box [" + vs<N>(lo) + ".." + vs<N>(hi) + "] tRange " + (tr.dflt ? "default" : ivs(tr.a, tr.b)) + " -> " + ivs(r0, r1) + "; exact " + ivs(in0, in1) +
@@ -173,14 +172,14 @@ static void check_ray(const char *tname, const double *o, const double *d, const
   if (rne) {
     const bool ok = in0 <= in1 + tol(in1) && r0 >= in0 - tol(in0) && r1 <= in1 + tol(in1);
     if (!ok)
-      viol(C, fn + (in0 <= in1 ? "|interval covers parameters outside the exact slab interval|" : "|non-empty interval although the ray misses the box|") + cls(), spec(),
+      VIOL(C, kc + 8 * (in0 <= in1), fn + (in0 <= in1 ? "|interval covers parameters outside the exact slab interval|" : "|non-empty interval although the ray misses the box|") + cls(), spec(),
           "got " + ivs(r0, r1) + " exact " + ivs(in0, in1));
   }
   // 'out' within R (+tol)
   if (out0 <= out1) {
     const bool ok = r0 <= out0 + tol(out0) && r1 >= out1 - tol(out1);
     if (!ok)
-      viol(C, fn + (rne ? "|interval misses parameters of the exact slab interval|" : "|empty interval although the ray hits the box|") + cls(), spec(), "got " + ivs(r0, r1) + " exact " + ivs(out0, out1));
+      VIOL(C, kc + 8 * rne, fn + (rne ? "|interval misses parameters of the exact slab interval|" : "|empty interval although the ray hits the box|") + cls(), spec(), "got " + ivs(r0, r1) + " exact " + ivs(out0, out1));
   }
   if (tie) {
     G.n++;
@@ -202,10 +201,10 @@ static void check_ray(const char *tname, const double *o, const double *d, const
     C.trans++;
     if (sin && tin) {
       if (!(rne && r0 - tol(r0) <= t && t <= r1 + tol(r1)))
-        viol(C, fn + "|a parameter whose point is strictly inside the box is not covered|" + cls(), spec(), "t = " + num(t) + " got " + ivs(r0, r1));
+        VIOL(C, kc, fn + "|a parameter whose point is strictly inside the box is not covered|" + cls(), spec(), "t = " + num(t) + " got " + ivs(r0, r1));
     } else if (sout || tout) {
       if (rne && r0 + tol(r0) <= t && t <= r1 - tol(r1))
-        viol(C, fn + (sout ? "|a parameter whose point is strictly outside the box is covered|" : "|a parameter outside tRange is covered|") + cls(), spec(), "t = " + num(t) + " got " + ivs(r0, r1));
+        VIOL(C, kc + 8 * sout, fn + (sout ? "|a parameter whose point is strictly outside the box is covered|" : "|a parameter outside tRange is covered|") + cls(), spec(), "t = " + num(t) + " got " + ivs(r0, r1));
     }
   }
 }
